@@ -33,7 +33,7 @@ ASSUMPTIONS = [
     'agreement follows only insofar as both lower to node types covered here',
     'Latest (needs commit timestamps from the store), filter predicates on commit contents, Divergent and AtOperation are not covered; BinaryHeap/HashMap/HashSet are native models',
 ]
-BUDGET = {'quick': 900, 'thorough': 3000}
+BUDGET = {'quick': 900, 'thorough': 6000}
 F = 'lib/src/default_index/revset_engine.rs'
 U32MAX = (1 << 32) - 1
 
